@@ -18,6 +18,16 @@ def T(quick, thorough, floor=200, **kw):
 
 
 PROPS = {
+    "C07": T(700, 18000,
+             rule="one random weighted multigraph per case (21 families, n<=7, 12%: n<=10) built in EVERY feasible encoding: Graph<u8> "
+                  "direct, Graph<u16> through a shuffled history with junk removed, Graph<usize> permuted, StableGraph<u32>/<u8> with "
+                  "vacancies, GraphMap with sparse labels, MatrixGraph with removed ids, Csr, adj::List; on each encoding every "
+                  "algorithm that type-checks (tarjan/kosaraju/toposort/Topo/has_path/cycle tests/bipartite/connected_components, "
+                  "Dfs/Bfs/DfsPostOrder/depth_first_search, dijkstra/astar/k_shortest_path, bellman_ford/spfa/floyd_warshall, "
+                  "min_spanning_tree(+prim), matchings, ford_fulkerson, dominators, articulation_points, cliques, dsatur, "
+                  "feedback arc set, all_simple_paths, page_rank) is judged by the same oracle / certificate checker, so unique "
+                  "answers are equal across encodings and non-unique ones equally valid and optimal; a panic on one encoding is a "
+                  "violation; non-trivial = >=3 nodes and >=2 edges; distinct = weighted edge-list hash; cells hit are listed in observed"),
     "C06": T(4000, 100000,
              rule="random multigraph (21 families, n<=7, 10%: n<=12) stored in one of the 9 encodings (Graph via shuffled history, "
                   "StableGraph with vacancies at index 0 / inside / trailing, MatrixGraph with removed ids, GraphMap with sparse labels, "
